@@ -178,7 +178,7 @@ pub open spec fn kept_of(s: Seq<BufferedSyscommand>, command: SystemCommand) -> 
     }
 }
 
-// loop 1 = the retain loop (rule 14): entries are visited front to back, each exactly once; matching ones replayed with their
+// the retain loop (rule 14; its invariant is the //@lift.inv| lines; every `buffered_syscommands.retain(..)` statement is lifted under the same contract): entries are visited front to back, each exactly once; matching ones replayed with their
 // own triple in buffer order (the chain of intermediate worlds is `verif_trace`), the others kept in order.
 #[verifier::exec_allows_no_decreases_clause]
 //@fn src/react/syscommand_runner.rs - syscommand_runner
@@ -190,10 +190,10 @@ pub open spec fn kept_of(s: Seq<BufferedSyscommand>, command: SystemCommand) -> 
 //@lift|         replay_step(*old(world), *buffered, command, *final(world)),
 //@lift.pre | let ghost mut verif_trace: Seq<World> = seq![*world]; let ghost verif_s = buffered_syscommands@;
 //@lift.post | proof { verif_trace = verif_trace.push(*world); assert(verif_s.take(verif_it.index@ + 1).drop_last() =~= verif_s.take(verif_it.index@ as int)); }
-//@loop 1 | invariant verif_it.seq().len() == verif_s.len(), forall|i: int| 0 <= i < verif_s.len() ==> *(#[trigger] verif_it.seq()[i]) == verif_s[i], verif_trace.len() == verif_it.index@ + 1, *world == verif_trace[verif_it.index@ as int],
-//@loop 1 |     forall|j: int| 0 <= j < verif_it.index@ ==> replay_step(#[trigger] verif_trace[j], verif_s[j], command, verif_trace[j + 1]),
-//@loop 1 |     verif_kept@ == kept_of(verif_s.take(verif_it.index@ as int), command),
-//@loop 2 | invariant true, ensures world.queue().commands@.len() == 0,
+//@lift.inv| verif_it.seq().len() == verif_s.len(), forall|i: int| 0 <= i < verif_s.len() ==> *(#[trigger] verif_it.seq()[i]) == verif_s[i], verif_trace.len() == verif_it.index@ + 1, *world == verif_trace[verif_it.index@ as int],
+//@lift.inv| forall|j: int| 0 <= j < verif_it.index@ ==> replay_step(#[trigger] verif_trace[j], verif_s[j], command, verif_trace[j + 1]),
+//@lift.inv| verif_kept@ == kept_of(verif_s.take(verif_it.index@ as int), command),
+//@loop 1 | invariant true, ensures world.queue().commands@.len() == 0,
 //@before let mut buffered_syscommands | assert(exists|w: World| #![trigger poll_eff(w)] *world == poll_eff(w)); // clause E
 //@before world.resource_mut::<CobwebCommandQueue<BufferedSyscommand>>().append | assert(buffered_syscommands@ == kept_of(verif_s, command)) by { assert(verif_s.take(verif_s.len() as int) =~= verif_s); }
 
